@@ -134,20 +134,21 @@ PROPS = {
             'level_note': LEDGER_NOTE + ' ' + MODEL_NOTE + ' NOT decided: "terminates without raising" for every fault position (totality of LAPACK/NumPy on non-finite '
                           'data) and "returns a finite x".',
             'not_decided': ['never raises (library totality)', 'returns a finite x']},
-    'C11': {'bundles': ['ledger', 'model'], 'level': 'proof',
+    'C11': {'bundles': ['ledger', 'model', 'svdfloor'], 'level': 'proof',
             'level_text': 'Partial claim: the pair (Jacobian, evaluation numbers) is written together by the fit, copied together into the saved slot, returned together '
                           'by get_final_results, kept together through solve_main and the hard-restart merge, and un-scaled column by column exactly once; the '
                           'evaluation-number snapshot is a fresh copy.',
             'level_note': LEDGER_NOTE + ' ' + MODEL_NOTE + ' ASSUMED, not proved: solve_geom_system returns the interpolant / least-squares fit (LAPACK QR and triangular '
                           'solves are opaque), hence "equals A for linear residuals" is a consequence of an assumption.',
-            'not_decided': ['the matrix equals the fit (LAPACK)', 'make_full_rank SVD perturbation']},
-    'C16': {'bundles': ['model', 'precond'], 'level': 'proof',
+            'not_decided': ['the matrix equals the fit (LAPACK)']},
+    'C16': {'bundles': ['model', 'precond', 'svdfloor'], 'level': 'proof',
             'level_text': 'Partial claim: (i) base-shift invariance — shift_base leaves every absolute point, the model value at every fixed absolute point, the residual vector '
                           'assembled by build_full_model (hence g and H) and the Jacobian unchanged (real vector arithmetic, linear matvec); (ii) the cached factorisation is never stale: '
                           'a ghost geometry version is bumped by every point-set mutator and factorisation_current implies the cached version is the current one (class invariant), so a '
                           'missing "factorisation_current = False" is a refuted class invariant; (iii) build_full_model returns g = 2 J^T r, H = 2 J^T J; (iv) preconditioning consistency: '
                           'interpolation_matrix returns [1 | directions / s] together with right_scaling = (1, 1/s, ..., 1/s) for the same s, and s == 1 when preconditioning is off, so the '
-                          'un-scaled solution solves the unscaled interpolation system under both settings of the option.',
+                          'un-scaled solution solves the unscaled interpolation system under both settings of the option; (v) the full-rank completion (growing phase) applies a floor to the singular values '
+                          'that does not exceed the smallest genuine one unless a safety floor binds, so the interpolated data are kept.',
             'level_note': MODEL_NOTE + ' NOT decided: reproduction of the data by the fit, least-squares orthogonality, L_k(y_j) = delta_kj — these are statements about LAPACK QR / triangular '
                           'solves (solve_geom_system), which are opaque here; clause (iv) is in domain Sc (matrices as opaque terms, scalars real); add_new_sample can move kopt without clearing the flag (O5, unreachable from solve).',
             'not_decided': ['data reproduction / least-squares orthogonality / Lagrange identities (LAPACK QR and triangular solves are opaque)']},
